@@ -211,6 +211,20 @@ def cases(tier, shard, nshards):
                 yield Case("max(%s, %s)" % (sa, sb), {"k": "kinds", "op": "max", "ka": ka, "kb": kb})
             yield Case("sort([%s, %s])" % (sa, sb), {"k": "kinds", "op": "sort", "ka": ka, "kb": kb})
             yield Case("%s == %s" % (sa, sb), {"k": "kindeq", "op": "==", "ka": ka, "kb": kb})
+            # the running-extremum implementation behind `yield .. into max / min` answers (value or error) like the call on the list
+            for f in ("max", "min"):
+                yield Case(["%s([%s, %s])" % (f, sa, sb), "for (x_ <- [%s, %s]) yield x_ into %s" % (sa, sb, f),
+                            "%s([%s, %s, %s])" % (f, sb, sa, sb), "for (x_ <- [%s, %s, %s]) yield x_ into %s" % (sb, sa, sb, f)],
+                           {"k": "identity2", "op": "into-" + f, "v": "%s,%s" % (ka, kb)}, iso=True)
+    S_ = sub_pool()
+    for L in (1, 2, 3):
+        for idx in itertools.product(range(len(S_)), repeat=L):
+            n += 1
+            if n % nshards != shard:
+                continue
+            src_ = "[%s]" % ", ".join(S_[i][1] for i in idx)
+            for f in ("max", "min"):
+                yield Case(["%s(%s)" % (f, src_), "for (x_ <- %s) yield x_ into %s" % (src_, f)], {"k": "identity2", "op": "into-" + f, "v": "reals"}, iso=True)
 
 
 def nontrivial(case, rs):
@@ -270,6 +284,12 @@ def judge(case, rs):
     k = m["k"]
     if k == "identity":
         return judge_identity(case, rs)
+    if k == "identity2":      # steps come in pairs that must answer alike
+        out = []
+        for i in range(0, len(rs) - 1, 2):
+            sub = Case(case.steps[i:i + 2], case.meta, iso=True)
+            out += judge_identity(sub, rs[i:i + 2])
+        return out[:1]
     r = rs[0]
     st = r.get("st")
     src = case.steps[0]
